@@ -58,5 +58,12 @@ try:
 finally:
     sh("git -C /repo worktree remove --force %s" % wt)
     sh("git -C /repo worktree prune")
-json.dump(res, open(os.path.join(d, "result.json"), "w"), indent=1)
+rp = os.path.join(d, "result.json")
+if "--props" in sys.argv and os.path.exists(rp):  # extra checks for an already recorded change: merge
+    old = json.load(open(rp))
+    if old.get("at_repo_head") == res["at_repo_head"]:
+        old["checks"].update(res["checks"])
+        old["silent"] = all(c["rc"] == 0 for c in old["checks"].values())
+        res = old
+json.dump(res, open(rp, "w"), indent=1)
 print(json.dumps({k: (v if k != "checks" else {p: c["rc"] for p, c in v.items()}) for k, v in res.items() if k in ("change", "apply_rc", "build_rc", "pkg_tests_failed", "checks", "silent")}))
